@@ -79,9 +79,54 @@ type Shared struct {
 	Soft  *activations.Softmax
 }
 
+// Universe selects the shape of the shared (and private) tensors the menu programs work on: the specification's
+// footprints do not depend on shapes, the code paths do (rank >= 3 accessors, kernels that switch strategy on size).
+//
+//	0: [2,2]   1: [3,2,2]   2: [64,64]
+var Universe = 0
+
+func baseDims() []int {
+	switch Universe {
+	case 1:
+		return []int{3, 2, 2}
+	case 2:
+		return []int{64, 64}
+	}
+	return []int{2, 2}
+}
+
+func gen(mul, mod, off int, div float64) []float64 {
+	n := 1
+	for _, d := range baseDims() {
+		n *= d
+	}
+	v := make([]float64, n)
+	for i := range v {
+		x := (i*mul)%mod - off
+		if x >= 0 {
+			x++ // never zero: the programs divide by shared tensors
+		}
+		v[i] = float64(x) / div
+	}
+	return v
+}
+
+// to2D views a tensor of rank > 2 as [first, rest] for the components that require rank 2.
+func to2D(t tensor.Tensor) (tensor.Tensor, error) {
+	sh := t.Shape()
+	if len(sh) == 2 {
+		return t, nil
+	}
+	return t.Reshape([]int{sh[0], t.NElems() / sh[0]})
+}
+
 func NewShared() *Shared {
-	s1, _ := bind.New([]int{2, 2}, []float64{1, 2, 3, 4}, true)
-	s2, _ := bind.New([]int{2, 2}, []float64{0.5, 1, 2, -1}, false)
+	v1, v2 := []float64{1, 2, 3, 4}, []float64{0.5, 1, 2, -1}
+	if Universe != 0 {
+		v1, v2 = gen(7, 11, 5, 4), gen(5, 9, 3, 8)
+	}
+	s1, _ := bind.New(baseDims(), v1, true)
+	s2, _ := bind.New(baseDims(), v2, false)
 	fcConf := &layers.FCConfig{Inputs: 2, Outputs: 2, Initializers: map[string]layers.Initializer{
 		"Weight": initializers.NewFull(&initializers.FullConfig{Value: 0.5}), "Bias": initializers.NewFull(&initializers.FullConfig{Value: -0.25})}}
 	fc, err := layers.NewFC(fcConf)
@@ -110,9 +155,12 @@ func resolve(sh *Shared, local []tensor.Tensor, slot [2]any) tensor.Tensor {
 func Step(sh *Shared, local []tensor.Tensor, in Instr) (tensor.Tensor, error) {
 	switch in.Kind {
 	case "leaf":
+		if Universe != 0 {
+			return bind.New(baseDims(), gen(3, 7, 2, 2), in.Tracked)
+		}
 		return bind.New([]int{2, 2}, []float64{1, 0, 2, 1}, in.Tracked)
 	case "rand":
-		return tensor.RandU([]int{2, 2}, 0, 1, nil)
+		return tensor.RandU(baseDims(), 0, 1, nil)
 	case "cmp":
 		return resolve(sh, local, in.Slots[0]).Gt(resolve(sh, local, in.Slots[1]))
 	case "op":
@@ -145,7 +193,11 @@ func Step(sh *Shared, local []tensor.Tensor, in Instr) (tensor.Tensor, error) {
 		case "softmax":
 			return sh.Soft.Forward(a)
 		case "fc":
-			return sh.Layer.Forward(a)
+			a2, err := to2D(a)
+			if err != nil {
+				return nil, err
+			}
+			return sh.Layer.Forward(a2)
 		case "dot":
 			return a.Dot(b)
 		case "sub":
@@ -161,15 +213,19 @@ func Step(sh *Shared, local []tensor.Tensor, in Instr) (tensor.Tensor, error) {
 		case "leakyrelu":
 			return activations.NewLeakyRelu(&activations.LeakyReluConfig{M: 0.125}).Forward(a)
 		case "reshape":
-			return a.Reshape([]int{4})
+			return a.Reshape([]int{a.NElems()})
 		case "flatten":
 			return a.Flatten(0)
 		case "unsqueeze":
 			return a.UnSqueeze(1)
 		case "broadcast":
-			return a.Broadcast([]int{3, 2, 2})
+			return a.Broadcast(append([]int{3}, a.Shape()...))
 		case "patch":
-			return a.Patch([]tensor.Range{{From: 0, To: 2}, {From: 0, To: 2}}, b)
+			var idx []tensor.Range
+			for _, d := range a.Shape() {
+				idx = append(idx, tensor.Range{From: 0, To: d})
+			}
+			return a.Patch(idx, b)
 		case "varalong":
 			return a.VarAlong(1)
 		case "maxalong":
@@ -183,6 +239,12 @@ func Step(sh *Shared, local []tensor.Tensor, in Instr) (tensor.Tensor, error) {
 			if err != nil {
 				return nil, err
 			}
+			if pa, err = to2D(pa); err != nil {
+				return nil, err
+			}
+			if pb, err = to2D(pb); err != nil {
+				return nil, err
+			}
 			return losses.NewCE().Compute(pa, pb)
 		case "bce":
 			fa, err := a.Flatten(0)
@@ -193,6 +255,11 @@ func Step(sh *Shared, local []tensor.Tensor, in Instr) (tensor.Tensor, error) {
 			if err != nil {
 				return nil, err
 			}
+			if n := fa.NElems(); fb.NElems() > n { // shapes other than [2,2]: compare with the leading part
+				if fb, err = fb.Slice([]tensor.Range{{From: 0, To: n}}); err != nil {
+					return nil, err
+				}
+			}
 			return losses.NewBCE().Compute(fa, fb)
 		case "mse":
 			fa, err := a.Flatten(0)
@@ -202,6 +269,11 @@ func Step(sh *Shared, local []tensor.Tensor, in Instr) (tensor.Tensor, error) {
 			fb, err := b.Flatten(0)
 			if err != nil {
 				return nil, err
+			}
+			if n := fa.NElems(); fb.NElems() > n { // shapes other than [2,2]: compare with the leading part
+				if fb, err = fb.Slice([]tensor.Range{{From: 0, To: n}}); err != nil {
+					return nil, err
+				}
 			}
 			return losses.NewMSE().Compute(fa, fb)
 		}
@@ -282,14 +354,14 @@ func RunSeq(sh *Shared, p []Instr) ([]Digest, []tensor.Tensor, error) {
 // RunConcurrent runs the programs in parallel goroutines on one shared heap, rounds times, and compares
 // every goroutine's results with the sequential reference. It returns a description of the first difference.
 func RunConcurrent(progs [][]Instr, rounds int) string {
-	ref := make([][]Digest, len(progs))
-	for g, p := range progs {
-		d, _, err := RunSeq(NewShared(), p)
-		if err != nil {
-			return fmt.Sprintf("HARNESS: sequential run of program %d failed: %v", g, err)
-		}
-		ref[g] = d
+	// The concurrent rounds come FIRST: the sequential reference would otherwise warm up whatever package-level
+	// state the library keeps (pools, buffers that grow on first use) before any goroutine gets to race on it.
+	type round struct {
+		got    [][]Digest
+		errs   []error
+		shared [2]bool
 	}
+	all := make([]round, rounds)
 	for r := 0; r < rounds; r++ {
 		sh := NewShared()
 		before := [2]Digest{DigestOf(sh.S[0]), DigestOf(sh.S[1])} // the third one must not be touched before the goroutines run
@@ -307,6 +379,21 @@ func RunConcurrent(progs [][]Instr, rounds int) string {
 		}
 		close(start)
 		wg.Wait()
+		all[r] = round{got: got, errs: errs}
+		for i := 0; i < 2; i++ {
+			all[r].shared[i] = DigestOf(sh.S[i]).Equal(before[i], true)
+		}
+	}
+	ref := make([][]Digest, len(progs))
+	for g, p := range progs {
+		d, _, err := RunSeq(NewShared(), p)
+		if err != nil {
+			return fmt.Sprintf("HARNESS: sequential run of program %d failed: %v", g, err)
+		}
+		ref[g] = d
+	}
+	for r := 0; r < rounds; r++ {
+		got, errs := all[r].got, all[r].errs
 		for g := range progs {
 			if errs[g] != nil {
 				return fmt.Sprintf("round %d goroutine %d: %v", r, g, errs[g])
@@ -321,7 +408,7 @@ func RunConcurrent(progs [][]Instr, rounds int) string {
 			}
 		}
 		for i := 0; i < 2; i++ {
-			if !DigestOf(sh.S[i]).Equal(before[i], true) {
+			if !all[r].shared[i] {
 				return fmt.Sprintf("round %d: shared tensor %d was modified", r, i+1)
 			}
 		}
